@@ -29,7 +29,16 @@ RingsOf(P) == LET RECURSIVE Cat(_)
 Single == {[kind |-> "clip", lines |-> <<l>>, ml |-> FALSE, poly |-> P] : l \in Lines, P \in Polys}
 Multi == {[kind |-> "clip", lines |-> <<p[1], p[2]>>, ml |-> TRUE, poly |-> P] :
              p \in {q \in L2 \X L3 : (HashL(q[1], 1) + 3 * HashL(q[2], 1)) % 97 = 0}, P \in Polys}
+(* lines all of whose vertices are inside P while P is not convex / has a hole / has two members: the line may leave P
+   between its vertices (every 2-vertex line of the lattice, and 3-vertex lines thinned by M3 / 8) *)
+Tricky == { [t |-> "Polygon", polys |-> << <<Concave>> >>], [t |-> "Polygon", polys |-> << <<Quad, Hole>> >>],
+            [t |-> "MultiPolygon", polys |-> << <<SmallTri>>, <<Far>> >>], [t |-> "MultiPolygon", polys |-> << <<Quad, Hole>> >>] }
+L2all == TLCEval({s \in [1..2 -> Grid] : s[1] # s[2]})
+L3m == TLCEval({s \in [1..3 -> Grid] : HashL(s, 1) % (M3 \div 8) = 2 /\ Simple(s)})
+AllInside(l, P) == \A i \in 1..Len(l) : InRings(l[i], RingsOf(P))
+InsideCases == {[kind |-> "clip", lines |-> <<l>>, ml |-> FALSE, poly |-> P] : l \in {x \in L2all \cup L3m : TRUE}, P \in Tricky}
 GenInit == /\ c \in {x \in Single \cup Multi : GeneralPosition(x.lines, RingsOf(x.poly))}
+                   \cup {x \in InsideCases : AllInside(x.lines[1], x.poly) /\ GeneralPosition(x.lines, RingsOf(x.poly))}
            /\ PrintT(ToJson(c))
 GenSpec == GenInit /\ [][UNCHANGED c]_c
 =============================================================================
